@@ -408,7 +408,13 @@ func (w *world) tokID(raw string) string {
 	return "?"
 }
 
-func (w *world) viewOf(j jar) M {
+func (w *world) viewOf(j jar) (res M) {
+	defer func() {
+		if pv := recover(); pv != nil {
+			T.oracle("C17", "handler panicked", M{"panic": trunc(fmt.Sprint(pv), 300), "where": "GetSession on the browser's jar"}, w.replay())
+			res = M{"error": "panic"}
+		}
+	}()
 	r2 := httptest.NewRequest("GET", "http://app.test/", nil)
 	j.addTo(r2)
 	sd, err := w.sm.GetSession(r2)
@@ -1057,7 +1063,8 @@ func (w *world) refRolesOK(t *hTok) bool {
 	return false
 }
 
-func (w *world) jarRefresh(j jar) string {
+func (w *world) jarRefresh(j jar) (res string) {
+	defer func() { recover() }()
 	r2 := httptest.NewRequest("GET", "http://app.test/", nil)
 	j.addTo(r2)
 	sd, err := w.sm.GetSession(r2)
